@@ -232,7 +232,11 @@ def main():
     for i, v in enumerate(new_viol):
         path = os.path.join(rdir, f"{pid}-{i}.txt")
         witness = None
-        if v["backend"] == "kani" and tier is not None:
+        if v["backend"] == "kani" and tier is not None and sum(1 for u in new_viol[:i] if u["backend"] == "kani") >= 2:
+            # concrete playback rebuilds the crate per harness: replay the first two Kani violations natively, the
+            # others keep the verifier's trace only
+            v["output"] = "(native playback skipped: two Kani counterexamples of this run were already replayed)\n" + v["output"]
+        elif v["backend"] == "kani" and tier is not None:
             try:
                 pb = vf.kani_playback(v["harness"]["name"], v["harness"].get("package"), v["harness"].get("flags"))
                 witness = pb.get("test") if pb.get("replayed") else None
